@@ -1,8 +1,20 @@
 // ---- common preamble (hand written; spec + assumed specifications only) ----
+#[allow(unused_imports)]
+use vstd::std_specs::cmp::*;
 #[derive(Debug)]
 pub struct VErr;
 
 // TRUSTED: assume_specification Option::<&T>::copied  (vstd has none): Some(&x) -> Some(x), None -> None
 pub assume_specification<T: Copy>[ Option::<&T>::copied ](o: Option<&T>) -> (r: Option<T>)
     ensures r == (match o { Some(x) => Some(*x), None => None::<T> }),
+;
+
+// TRUSTED: assume_specification core::cmp::min / max (vstd has none): the result is one of the two arguments, the smaller / larger one for types whose Ord obeys vstd's cmp specification (the integer types)
+pub assume_specification<T: Ord>[ core::cmp::min::<T> ](a: T, b: T) -> (r: T)
+    ensures r == a || r == b,
+        T::obeys_cmp_spec() ==> r == (if a.cmp_spec(&b) is Greater { b } else { a }),
+;
+pub assume_specification<T: Ord>[ core::cmp::max::<T> ](a: T, b: T) -> (r: T)
+    ensures r == a || r == b,
+        T::obeys_cmp_spec() ==> r == (if a.cmp_spec(&b) is Greater { a } else { b }),
 ;
